@@ -86,6 +86,8 @@ var ErrInjected = errors.New("faultio: injected I/O error")
 type FailReader struct {
 	Data     []byte
 	At       int
+	Err      error // the error to fail with (default ErrInjected)
+	Once     bool  // the error is reported once; later calls say io.EOF (a connection after a reset)
 	pos      int
 	Returned int // how many times the error was returned to the caller
 }
@@ -102,7 +104,13 @@ func (f *FailReader) Read(p []byte) (int, error) {
 		if f.pos >= len(f.Data) && f.At >= len(f.Data) {
 			return 0, io.EOF
 		}
+		if f.Once && f.Returned > 0 {
+			return 0, io.EOF
+		}
 		f.Returned++
+		if f.Err != nil {
+			return 0, f.Err
+		}
 		return 0, ErrInjected
 	}
 	n := limit - f.pos
